@@ -187,7 +187,7 @@ func TestC01(t *testing.T) {
 					tab = hx.WithEnumDecl(obs, base)
 				}
 				usable := qf.Err == nil && len(tab.Cols) > 0
-				op := rapid.IntRange(0, 21).Draw(t, "frameop")
+				op := rapid.IntRange(0, 21).Draw(t, "frameop") // 21 = Append
 				invalid := rapid.IntRange(0, 9).Draw(t, "invalid") == 0
 				switch {
 				case op <= 1 && usable: // Filter
@@ -390,6 +390,39 @@ func TestC01(t *testing.T) {
 							tm[k] = "scribbled"
 						}
 						tm["extra"] = "x"
+					}
+				case op == 21 && usable: // Append (work in progress in the library, int columns only): only persistence is looked at
+					var ints []string
+					for _, c := range tab.Cols {
+						if c.Kind == hx.KInt {
+							ints = append(ints, c.Name)
+						}
+					}
+					if len(ints) == 0 {
+						continue
+					}
+					ints = ints[:1+rapid.IntRange(0, len(ints)-1).Draw(t, "appendcols")]
+					var others []*member
+					for _, o := range family {
+						if o.kind != "frame" || o.qf.Err != nil {
+							continue
+						}
+						tm, ok := o.qf.ColumnTypeMap(), true
+						for _, n := range ints {
+							ok = ok && tm[n] == types.Int
+						}
+						if ok {
+							others = append(others, o)
+						}
+					}
+					o := others[rapid.IntRange(0, len(others)-1).Draw(t, "appendother")]
+					opName = fmt.Sprintf("Append %q", ints)
+					run = func() {
+						a, b := qf.Select(ints...), o.qf.Select(ints...)
+						r := a.Append(b)
+						if r.Err == nil {
+							addFrame(r, opName, newGrp())
+						}
 					}
 				case op == 20 && usable && invalid: // chained error
 					opName = "operation on unknown column, continued"
